@@ -219,9 +219,19 @@ pbt::GenCfg cfgFor(const std::string& /*prop*/, const hc::Args& a){
 
 } // namespace
 
+#ifdef FUZZ_TARGET
+#include "../model/bytes.hpp"
+extern "C" int LLVMFuzzerTestOneInput(const uint8_t* data, size_t size){
+    static const std::string prop = getenv("VERIF_FUZZ_PROP") ? getenv("VERIF_FUZZ_PROP") : "C10";
+    static const int hmaxF[5] = {0, 6, 4, 3, 3};
+    const FmmCase c = fz::decode(data, size, Dim, hmaxF[Dim], TSMP != 0, true);
+    return hc::fuzzOne(c, [&](const FmmCase& x){ return propPeriodic(x, prop); });
+}
+#else
 int main(int argc, char** argv){
     hc::Args a = hc::parseArgs(argc, argv);
     if(a.prop.empty()){ std::cerr << "usage: --prop Cxx ...\n"; return 2; }
     const std::string prop = a.prop;
     return hc::runMain(a, cfgFor(prop, a), [&](const FmmCase& c){ return propPeriodic(c, prop); });
 }
+#endif
